@@ -315,6 +315,11 @@ class HttpParser(abc.ABC, Generic[_MsgT]):
         assert self._payload_parser is not None
         self._payload_parser.pause_reading()
 
+    @property
+    def has_pending_input(self) -> bool:
+        """True while bytes of an unfinished message head are buffered."""
+        return bool(self._tail or self._lines)
+
     def message_consumed(self) -> None:
         """Protocol drained a queued message; free a slot for parsing."""
         if self._msg_in_flight > 0:
